@@ -85,7 +85,7 @@ def local_checks(b, rs, viol, stats):
         st = model.step(mp_m, mp_P, mpf(float(pre.t)), mpf(h))
         m, P = embed.normal_np(post.u)
         em = compare.mean_err(m, embed.vec_np(st["m"]), q, d, h)
-        ec = compare.cov_err(P, embed.to_np(st["P"]), embed.to_np(st["Ppred"]))
+        ec = compare.cov_err(P, embed.to_np(st["P"]), embed.to_np(st["Ppred"]), (q, d, h))
         ill = compare.ill_conditioned(st["kappa"])
         # conditioning of the prediction itself (e.g. inexact initial std on all coefficients with tiny steps:
         # cond 1e17 observed): a square-root update loses about eps * sqrt(cond)
@@ -155,7 +155,7 @@ def e2e_checks(sc, b, rs, err, sol, viol, stats):
         if s2 is not None:
             Pref, Pp = b.model.scale_cov(Pref, s2), b.model.scale_cov(Pp, s2)
         em = compare.mean_err(m, embed.vec_np(mref), q, d, float(hs[k - 1]))
-        ec = compare.cov_err(P, embed.to_np(Pref), embed.to_np(Pp))
+        ec = compare.cov_err(P, embed.to_np(Pref), embed.to_np(Pp), (q, d, float(hs[k - 1])))
         stats["worst_e2e_mean"] = max(stats.get("worst_e2e_mean", 0.0), em)
         tol_m = compare.TOL_GLOBAL_MEAN * max(1.0, 1e3 * compare.EPS * kap / 1e-8) if cfg["calib"] == "dynamic" else compare.TOL_GLOBAL_MEAN
         kPmax = stats.get("cond_pred_max", 1.0)
